@@ -110,7 +110,7 @@ def sha(path):
 def one(ctx, i, tmpdir):
     from doctrans.gen import gen
 
-    rng = ctx.rng
+    rng = ctx.case_rng(i)
     modname = "zqgenin_{}_{}_{}".format(os.getpid(), ctx.shard[0], i)
     src, names, feats, expect = build_input(rng, i)
     in_fn = os.path.join(tmpdir, modname + ".py")
@@ -126,7 +126,7 @@ def one(ctx, i, tmpdir):
     via = "cli" if i % 8 == 5 else "api"
     base = dict(op=OP, type=type_, name_tpl=tpl, prepend=prepend is not None, imports_from_file=imports_from_file is not None, via=via,
                 **{k: v for k, v in feats.items() if k != "obj_kind"})
-    replay = {"input": src, "type": type_, "name_tpl": tpl, "prepend": prepend, "imports_from_file": bool(imports_from_file)}
+    replay = {"case": i, "seed": ctx.seed, "tier": ctx.tier, "input": src, "type": type_, "name_tpl": tpl, "prepend": prepend, "imports_from_file": bool(imports_from_file)}
     ctx.case((type_, tpl, prepend is not None, imports_from_file is not None, feats["n_entries"], feats["n_import_lines"], feats["annotated"],
               tuple(feats["entry_kinds"]), i), nontrivial=feats["any_params"],
              sample={"type": type_, "name_tpl": tpl, "prepend": prepend, "imports_from_file": bool(imports_from_file), "input": src[-700:]},
@@ -265,6 +265,11 @@ def run(ctx):
 def replay(payload):
     from ..runner import Ctx
 
-    ctx = Ctx(PROPERTY, "quick", 0)
-    ctx.case(("replay",))
+    rp = payload["replay"]
+    ctx = Ctx(PROPERTY, rp.get("tier", "quick"), rp.get("seed", 0))
+    tmpdir = tempfile.mkdtemp(prefix="dtverif-c19-")
+    try:
+        one(ctx, rp["case"], tmpdir)
+    finally:
+        shutil.rmtree(tmpdir, ignore_errors=True)
     return ctx
